@@ -1,4 +1,4 @@
-CONSTANTS W = 3  H = 3  PINNED = FALSE
+CONSTANTS W = 3  H = 3  PINNED = FALSE  LAYERFULL = TRUE
 INIT MCInit
 NEXT MCNext
 INVARIANT ClipRefines
